@@ -158,7 +158,7 @@ def run(ctx):
 def search_leftcorner(ctx, n):
     """volume search on grammars with cyclic left-corner graphs and longer contexts: the Earley and the CKY back-end are
     run on the same histories; where they disagree the harness-side mirror of the proved prefix semantics decides"""
-    gs = [M.rand_leftcorner_grammar(ctx.rng) for _ in range(n)]
+    gs = [(M.rand_leftcorner_grammar(ctx.rng) if k % 3 else M.rand_mutual_leftrec_grammar(ctx.rng)) for k in range(n)]
     plans = []
     for g in gs:
         cs = [list(x) for x in M.strings(g["nT"], 2)]
